@@ -1,7 +1,7 @@
 """GATE-1/2/3/5 (ordering of tests in Rc::drop and Rc::clone), EFF-2 / TS-7 / TS-9
 (every counter write belongs to an accounting pattern) and KILL-1."""
 from interp import DEAD, LIVE, ALL, alloc_root
-from expr import show, mentions, is_const, MAX
+from expr import show, mentions, is_const, MAX, box_part
 from rules_ts import add, rem, is_elem_box, sub
 
 EFFECT_KINDS = ("set", "tblwrite", "borrow", "moveout", "free", "user", "handle_drop", "alloc", "vec", "iter", "tbl",
@@ -184,6 +184,26 @@ class Counters:
                 if alloc_root(b) is None:
                     eng.violate("EFF-2", "init-on-existing:header", "the counters of an existing object %s are reset" % show(b), ev.b, st)
                 return add(st, ("init", "strong", b), ("init", "weak", b))
+        return self._raw_write(eng, ev, st, p)
+
+    def on_fill(self, eng, ev, st):
+        return None
+
+    PTR_ARITH = ("add", "sub", "offset", "byte_add", "byte_sub", "byte_offset", "wrapping_add", "wrapping_sub", "wrapping_offset",
+                 "wrapping_byte_add", "wrapping_byte_sub", "map_addr", "with_addr", "from_exposed_addr_mut", "with_exposed_provenance_mut")
+
+    def _raw_write(self, eng, ev, st, p):
+        """A store through a pointer computed by arithmetic from a handle's box pointer does not name a field:
+        whichever of strong / weak / links / value it hits, no accounting rule sees it."""
+        if box_part(p) is not None:
+            return None
+        def handle_ptr(x):
+            return x[0] == "field" and x[2] == "ptr" and len(x) > 3 and x[3] in ("cactusref::rc::Rc", "cactusref::rc::Weak", "cactusref::link::Link")
+        def arith(x):
+            return x[0] == "call" and x[2].rsplit("::", 1)[-1] in self.PTR_ARITH and any(mentions(a, handle_ptr) for a in x[3])
+        if mentions(p, arith):
+            eng.obl("EFF-2", "write:raw", ev.b)
+            eng.violate("EFF-2", "raw-write-into-box", "memory of an object's allocation is written through a pointer computed by arithmetic from the handle's box pointer (%s): the write bypasses the counters' / table's accounting" % show(p)[:80], ev.b, st)
         return None
 
     def on_handle_new(self, eng, ev, st):
